@@ -6,6 +6,7 @@
 //     `if ctx.X() == nil { return|continue|break }`): these are the sites the Lean checker decides;
 //   - every other dereference shape (GetChild(i), GetParent(), unchecked type assertion on a non-accessor, [a:b]
 //     slices, [i] index on an accessor list) only as a count per file: those are covered by the dynamic search.
+//
 // Output: Lean module CocaVerif.Gen.NavSites.
 package main
 
@@ -65,6 +66,10 @@ func ruleOfType(t ast.Expr) string {
 		return ""
 	}
 	s = strings.TrimSuffix(s, "Context")
+	// the generated interface of a context: IFormalParametersContext
+	if len(s) > 2 && s[0] == 'I' && s[1] >= 'A' && s[1] <= 'Z' && !(s[2] >= 'A' && s[2] <= 'Z') {
+		s = s[1:]
+	}
 	return strings.ToLower(s[:1]) + s[1:]
 }
 
@@ -439,6 +444,9 @@ func main() {
 	repo, out := os.Args[1], os.Args[2]
 	var sites []site
 	other := map[string]map[string]int{}
+	pother := map[string]map[string]int{}
+	parsed := map[string]*ast.File{}
+	var order []string
 	var missing []string
 	for _, rel := range files {
 		f, err := parser.ParseFile(fset, filepath.Join(repo, rel), nil, 0)
@@ -446,6 +454,9 @@ func main() {
 			missing = append(missing, rel)
 			continue
 		}
+		parsed[rel] = f
+		order = append(order, rel)
+		pother[rel] = map[string]int{}
 		oc := map[string]int{}
 		other[rel] = oc
 		for _, d := range f.Decls {
@@ -469,8 +480,9 @@ func main() {
 		}
 	}
 	sort.SliceStable(sites, func(i, j int) bool { return sites[i].where < sites[j].where })
+	paths := analysePaths(parsed, order, pother)
 	var b strings.Builder
-	b.WriteString("-- GENERATED by harness/cmd/navsites from /repo on every run. DO NOT EDIT.\nnamespace CocaVerif.Gen.NavSites\n\n")
+	b.WriteString("-- GENERATED by harness/cmd/navsites from /repo on every run. DO NOT EDIT.\nimport CocaVerif.Base.NavTree\nnamespace CocaVerif.Gen.NavSites\nopen CocaVerif.NavTree\n\n")
 	b.WriteString("/-- a place where a listener dereferences the result of a child accessor: where, rule of the context, grammar symbol of the accessor, nil-guarded? -/\n")
 	b.WriteString("structure Site where\n  pos : String\n  fn : String\n  rule : String\n  sym : String\n  guarded : Bool\n  given : List String\n  deriving Repr\n\n")
 	b.WriteString("def sites : List Site := [\n")
@@ -494,6 +506,39 @@ func main() {
 	}
 	sort.Strings(rows)
 	b.WriteString(strings.Join(rows, ",\n"))
+	b.WriteString("\n]\n\n/-- a dereference, type assertion or GetChild at the end of a navigation chain: the rule of the starting context and the steps (with the tests that dominate the use) -/\n")
+	b.WriteString("structure PathSite where\n  pos : String\n  fn : String\n  rule : String\n  steps : List Step\n\n")
+	sort.SliceStable(paths, func(i, j int) bool { return paths[i].where < paths[j].where })
+	seen := map[string]bool{}
+	b.WriteString("def pathSites : List PathSite := [\n")
+	first := true
+	npaths := 0
+	for _, ps := range paths {
+		var st []string
+		for _, x := range ps.steps {
+			st = append(st, x.lean())
+		}
+		key := ps.where + "|" + ps.rule + "|" + strings.Join(st, ",")
+		if seen[key] {
+			continue
+		}
+		seen[key] = true
+		if !first {
+			b.WriteString(",\n")
+		}
+		first = false
+		npaths++
+		fmt.Fprintf(&b, "  ⟨%s, %s, %s, [%s]⟩  /- %s -/", leanStr(ps.where), leanStr(ps.fn), leanStr(ps.rule), strings.Join(st, ", "), strings.ReplaceAll(ps.text, "-/", "- /"))
+	}
+	b.WriteString("\n]\n\n/-- shapes the chain walk does not follow (covered by the grammar-wide search), per file -/\ndef pathUnanalysed : List (String × String × Nat) := [\n")
+	rows = nil
+	for f, m := range pother {
+		for k, n := range m {
+			rows = append(rows, fmt.Sprintf("  (%s, %s, %d)", leanStr(f), leanStr(k), n))
+		}
+	}
+	sort.Strings(rows)
+	b.WriteString(strings.Join(rows, ",\n"))
 	b.WriteString("\n]\n\ndef missingFiles : List String := [")
 	for i, m := range missing {
 		if i > 0 {
@@ -507,5 +552,5 @@ func main() {
 	if old, err := os.ReadFile(target); err != nil || string(old) != txt {
 		_ = os.WriteFile(target, []byte(txt), 0644)
 	}
-	fmt.Printf("{\"sites\":%d,\"missing\":%d}\n", len(sites), len(missing))
+	fmt.Printf("{\"sites\":%d,\"paths\":%d,\"missing\":%d}\n", len(sites), npaths, len(missing))
 }
